@@ -386,7 +386,9 @@ class Builder:
             self.dirty = True
 
     def close(self, s):
-        self.l.append("close %d" % s)
+        # every third close of a behaviour is an xcm_cleanup (the socket is given up, not closed towards the peer)
+        self.nclose = getattr(self, "nclose", 0) + 1
+        self.l.append("close %d%s" % (s, " cu" if self.nclose % 3 == 2 else ""))
         self.pairs = [p for p in self.pairs if s not in p]
         if s in self.mate:
             self.l.append("close %d" % self.mate.pop(s))
